@@ -223,6 +223,11 @@ def mk_stable(my):
                                                    z3.Implies(z3.And(s.live[e], t.live[e], z3.Not(s.succeeded)),
                                                               z3.Not(t.succeeded)))),
                    z3.Implies(s.st[e] == 5, t.st[e] == 5)))),
+        # an attempt of mine that is over and whose marker is gone never becomes the marker again (a new marker
+        # needs a blank event)
+        ('my_finished_attempt_is_never_the_marker_again', 'ev', lambda s, t, me, e: z3.Implies(
+            z3.And(s.crt_has[e], s.crt[e] == me, s.st[e] == 5, z3.Not(z3.And(s.m_has, s.m_ev == e))),
+            z3.And(t.crt_has[e], t.crt[e] == me, t.st[e] == 5, z3.Not(z3.And(t.m_has, t.m_ev == e))))),
         ('events_only_get_set', 'ev', lambda s, t, me, e: z3.Implies(s.ev_set[e], t.ev_set[e])),
         ('my_unpublished_events_are_untouched', 'ev', lambda s, t, me, e: z3.Implies(
             z3.And(s.crt_has[e], s.crt[e] == me),
@@ -431,6 +436,17 @@ def install_wrapper_stubs(E, ctx, R, my, opts):
             return VStub('dict.' + name, lambda E_, a, k: Obj('KwView', dict(kind=name, of=o.t)))
         if isinstance(o, Obj) and o in ctx.tables and name == 'get':
             return dict_get(o)
+        if isinstance(o, Obj) and o in ctx.tables and name == 'setdefault':
+            def setdefault(E_, a, k):
+                """dict.setdefault(key, value): stores only when the key is absent, returns what is there then"""
+                key_ok(a[0], node)
+                access('events.setdefault(key, ...)')
+                s = R.cur()
+                if E.branch(s.m_has):
+                    return VTuple([VVal(s.m_loop), Obj('AEvent', dict(ident=s.m_ev))])
+                setitem(E_, o, a[0], a[1], node)
+                return a[1]
+            return VStub('dict.setdefault', setdefault)
         if isinstance(o, Obj) and o in ctx.tables and name == 'pop':
             raise Unsupported('events.pop', node)
         if isinstance(o, VVal) and o.t.sort() == LoopS:
